@@ -182,3 +182,338 @@ Proof.
     + cbn [Conc.safe]. apply (HF ((p, None) :: lv_held lv)).
   - cbn [Conc.safe]. destruct lv as [F H o h]. apply (HF H).
 Qed.
+
+(** ** the critical sections *)
+Lemma found_pk F k pp pc : found_ok F k pp pc -> pk F pp /\ pk F (vptr pc).
+Proof.
+  intros [Hp Hc]. split.
+  - destruct Hp as [->|(km & Hk & _)]; unfold pk; eauto.
+  - destruct Hc as [Hc|[Hc _]]; unfold pk; eauto.
+Qed.
+
+Lemma found_kgt F k pp pc : found_ok F k pp pc -> is_key pc k = false -> kgt F (vptr pc) k.
+Proof.
+  intros [_ [Hc|[Hc Hle]]] Hk; [left; exact Hc|]. unfold is_key in Hk.
+  destruct (Nat.eqb_spec (vptr pc) TAIL) as [E|E]; [left; exact E|]. cbn [negb andb] in Hk.
+  right. exists (vkey pc). split; auto. apply Z.eqb_neq in Hk. lia.
+Qed.
+
+Lemma found_key F k pp pc : found_ok F k pp pc -> is_key pc k = true -> In (FPub (vptr pc) (vkey pc)) F.
+Proof.
+  intros [_ [Hc|[Hc _]]] Hk; auto. unfold is_key in Hk. rewrite Hc, Nat.eqb_refl in Hk. discriminate.
+Qed.
+
+Lemma klt_incl' F F' m k : incl F F' -> klt F m k -> klt F' m k.
+Proof. apply klt_incl. Qed.
+Lemma kgt_incl F F' m k : incl F F' -> kgt F m k -> kgt F' m k.
+Proof. intros H [->|(km & Hk & Hl)]; [left; reflexivity|right; exists km; auto]. Qed.
+
+Definition Qany {R} (Q : R -> lview -> Prop) : Prop := forall r lv', lv_hole lv' = None -> Q r lv'.
+
+(** lock the position, validate; [body]: what the operation does when the validation succeeded *)
+Lemma safe_section {R} t sf pp pc k (body : prog (option R)) (retry : prog (option R)) lv (Q : option R -> lview -> Prop) :
+  found_ok (lv_facts lv) k pp pc -> lv_hole lv = None -> Qany Q ->
+  (forall F' H' x, incl (lv_facts lv) F' -> pp <> vptr pc ->
+        In (pp, Some (vptr pc, false)) H' -> In (vptr pc, Some (x, false)) H' ->
+        safe t body (mkLV F' H' (lv_own lv) None) Q) ->
+  (forall F' H', incl (lv_facts lv) F' -> safe t retry (mkLV F' H' (lv_own lv) None) Q) ->
+  safe t (lk <- lock_pos sf pp (vptr pc) ;;
+          if negb lk then Ret None
+          else ok <- validate pp (vptr pc) ;;
+               if ok then body else (_ <- unlock_pos pp (vptr pc) ;; retry)) lv Q.
+Proof.
+  intros Hf Hh HQ Hbody Hretry. destruct (found_pk _ _ _ _ Hf) as [Hp Hc].
+  apply Conc.safe_bind. apply safe_lock_pos; auto.
+  - intros Hpc. cbn [negb]. apply Conc.safe_bind. apply safe_validate.
+    + exists None. right. left. reflexivity.
+    + exists None. left. reflexivity.
+    + intros F' H' HF HH. cbn [with_held lv_facts lv_held lv_own lv_hole] in *.
+      apply Conc.safe_bind. apply safe_unlock_pos; cbn [lv_held lv_hole]; auto.
+      * exists None. apply HH. right. left. reflexivity.
+      * exists None. apply HH. left. reflexivity.
+      * cbn [with_held lv_facts lv_held lv_own lv_hole]. rewrite Hh. apply Hretry. exact HF.
+    + intros F' H' x HF HH H1 H2. cbn [with_held lv_facts lv_held lv_own lv_hole] in *. rewrite Hh. eapply Hbody; eauto.
+  - intros H'. cbn [negb Conc.safe]. apply HQ. cbn. exact Hh.
+Qed.
+
+Lemma holds_set_obs h n v x o : In (x, o) h -> exists o', In (x, o') (set_obs h n v).
+Proof. intros H. apply set_obs_holds. eauto. Qed.
+
+(** ** the operation loops *)
+Lemma safe_insert_loop fuel : forall sf ic withf t g0 g1 k n nx lv (Q : out bool -> lview -> Prop),
+  lv_own lv = Some (n, k, nx) -> lv_hole lv = None -> Qany Q ->
+  safe t (insert_loop fuel sf ic withf t g0 g1 k n) lv Q.
+Proof.
+  induction fuel as [|f IH]; intros sf ic withf t g0 g1 k n nx lv Q Hown Hh HQ; cbn [insert_loop].
+  - cbn [Conc.safe]. apply HQ. exact Hh.
+  - apply Conc.safe_bind. unfold search_from_head. apply safe_search; [left; reflexivity|left; reflexivity|..].
+    + intros F' _. cbn [Conc.safe]. apply HQ. exact Hh.
+    + intros F' pp pc HF Hf. cbn beta iota.
+      apply (safe_section t sf pp pc k); auto.
+      * intros F2 H2 x HF2 Hpc Hp Hc. cbn [with_facts lv_facts lv_own] in *. rewrite Hown.
+        destruct (is_key pc k) eqn:Ek.
+        -- apply Conc.safe_bind. apply safe_unlock_pos; [eexists; exact Hp|eexists; exact Hc|exact Hpc|reflexivity|].
+           cbn [Conc.safe]. apply HQ. reflexivity.
+        -- unfold link_node. apply Conc.safe_bind.
+           eapply safe_st_own; [reflexivity|]. cbn [lv_facts lv_held lv_own lv_hole].
+           eapply safe_st_link with (kk := k) (pc := vptr pc); cbn [lv_facts lv_held lv_own lv_hole]; auto.
+           ++ eapply klt_incl; [exact HF2|]. apply Hf.
+           ++ eapply kgt_incl; [exact HF2|]. eapply found_kgt; eauto.
+           ++ cbn [Conc.safe].
+              assert (Hu : forall (Q' : unit -> lview -> Prop) lvx, lv_held lvx = set_obs H2 pp (n, false) -> lv_hole lvx = None ->
+                           Q' tt (with_held lvx (release (release (lv_held lvx) (vptr pc)) pp)) -> safe t (unlock_pos pp (vptr pc)) lvx Q').
+              { intros Q' lvx E1 E2 HQ'. apply safe_unlock_pos; auto; unfold holds; rewrite E1; eapply holds_set_obs; eauto. }
+              destruct withf.
+              ** apply safe_emit. apply Conc.safe_bind. apply Hu; [reflexivity|reflexivity|].
+                 apply Conc.safe_bind. apply safe_cnt_inc. cbn [Conc.safe]. apply HQ. reflexivity.
+              ** apply Conc.safe_bind. apply Hu; [reflexivity|reflexivity|].
+                 apply Conc.safe_bind. apply safe_cnt_inc. cbn [Conc.safe]. apply HQ. reflexivity.
+      * intros F2 H2 HF2. cbn [with_facts lv_own]. eapply IH; eauto.
+Qed.
+
+Lemma safe_update_loop fuel : forall sf ic allow t g0 g1 k n nx lv (Q : out (bool * bool) -> lview -> Prop),
+  lv_own lv = Some (n, k, nx) -> lv_hole lv = None -> Qany Q ->
+  safe t (update_loop fuel sf ic allow t g0 g1 k n) lv Q.
+Proof.
+  induction fuel as [|f IH]; intros sf ic allow t g0 g1 k n nx lv Q Hown Hh HQ; cbn [update_loop].
+  - cbn [Conc.safe]. apply HQ. exact Hh.
+  - apply Conc.safe_bind. unfold search_from_head. apply safe_search; [left; reflexivity|left; reflexivity|..].
+    + intros F' _. cbn [Conc.safe]. apply HQ. exact Hh.
+    + intros F' pp pc HF Hf. cbn beta iota.
+      apply (safe_section t sf pp pc k); auto.
+      * intros F2 H2 x HF2 Hpc Hp Hc. cbn [with_facts lv_facts lv_own] in *. rewrite Hown.
+        destruct (is_key pc k) eqn:Ek.
+        -- apply safe_emit. apply Conc.safe_bind. apply safe_unlock_pos; [eexists; exact Hp|eexists; exact Hc|exact Hpc|reflexivity|].
+           cbn [Conc.safe]. apply HQ. reflexivity.
+        -- destruct allow; cbn [negb].
+           ++ unfold link_node. apply Conc.safe_bind.
+              eapply safe_st_own; [reflexivity|]. cbn [lv_facts lv_held lv_own lv_hole].
+              eapply safe_st_link with (kk := k) (pc := vptr pc); cbn [lv_facts lv_held lv_own lv_hole]; auto.
+              ** eapply klt_incl; [exact HF2|]. apply Hf.
+              ** eapply kgt_incl; [exact HF2|]. eapply found_kgt; eauto.
+              ** cbn [Conc.safe]. apply safe_emit. apply Conc.safe_bind.
+                 apply safe_unlock_pos; auto; try (unfold holds; cbn [lv_held]; eapply holds_set_obs; eauto).
+                 apply Conc.safe_bind. apply safe_cnt_inc. cbn [Conc.safe]. apply HQ. reflexivity.
+           ++ apply Conc.safe_bind. apply safe_unlock_pos; [eexists; exact Hp|eexists; exact Hc|exact Hpc|reflexivity|].
+              cbn [Conc.safe]. apply HQ. reflexivity.
+      * intros F2 H2 HF2. cbn [with_facts lv_own]. eapply IH; eauto.
+Qed.
+
+Lemma safe_erase_loop fuel : forall sf ic code mine t g0 g1 k lv (Q : out bool -> lview -> Prop),
+  lv_hole lv = None -> Qany Q ->
+  safe t (erase_loop fuel sf ic code mine t g0 g1 k) lv Q.
+Proof.
+  induction fuel as [|f IH]; intros sf ic code mine t g0 g1 k lv Q Hh HQ; cbn [erase_loop].
+  - cbn [Conc.safe]. apply HQ. exact Hh.
+  - apply Conc.safe_bind. unfold search_from_head. apply safe_search; [left; reflexivity|left; reflexivity|..].
+    + intros F' _. cbn [Conc.safe]. apply HQ. exact Hh.
+    + intros F' pp pc HF Hf. cbn beta iota.
+      apply (safe_section t sf pp pc k); auto.
+      * intros F2 H2 x HF2 Hpc Hp Hc. cbn [with_facts lv_facts lv_own] in *.
+        destruct (is_key pc k && (negb (Z.eqb code 6) || Nat.eqb (vptr pc) mine)) eqn:Ek.
+        -- apply andb_true_iff in Ek. destruct Ek as [Ek _].
+           pose proof (found_key _ _ _ _ Hf Ek) as Hfk.
+           unfold unlink_node. apply Conc.safe_bind.
+           apply safe_ld_held; [exists (Some (x, false)); exact Hc|]. intros v Hag. cbn [lv_facts lv_held lv_own lv_hole].
+           destruct (Hag x false Hc) as [Ev1 Ev2].
+           eapply safe_st_mark with (p := pp) (nx := vptr v); cbn [lv_facts lv_held lv_own lv_hole].
+           ++ right. exact Hp.
+           ++ left. rewrite Ev2. reflexivity.
+           ++ exists (vkey pc). apply in_or_app. right. apply HF2. exact Hfk.
+           ++ reflexivity.
+           ++ eapply safe_st_bypass; cbn [lv_facts lv_held lv_own lv_hole]; [reflexivity|].
+              cbn [Conc.safe].
+              set (H3 := set_obs (set_obs ((vptr pc, Some (vptr v, vmark v)) :: H2) (vptr pc) (HEAD, true)) pp (vptr v, false)).
+              assert (Hu : forall (Q' : unit -> lview -> Prop) lvx, lv_held lvx = H3 -> lv_hole lvx = None ->
+                           Q' tt (with_held lvx (release (release (lv_held lvx) (vptr pc)) pp)) -> safe t (unlock_pos pp (vptr pc)) lvx Q').
+              { intros Q' lvx E1 E2 HQ'. apply safe_unlock_pos; auto; unfold holds; rewrite E1; unfold H3.
+                - apply set_obs_holds. apply set_obs_holds. exists (Some (vptr pc, false)). right. exact Hp.
+                - apply set_obs_holds. apply set_obs_holds. eexists. left. reflexivity. }
+              destruct (Z.eqb code 5).
+              ** apply safe_emit. apply Conc.safe_bind. apply Hu; [reflexivity|reflexivity|].
+                 apply Conc.safe_bind. apply safe_cnt_dec. apply Conc.safe_bind. apply safe_retire. cbn [Conc.safe]. apply HQ. reflexivity.
+              ** apply Conc.safe_bind. apply Hu; [reflexivity|reflexivity|].
+                 apply Conc.safe_bind. apply safe_cnt_dec. apply Conc.safe_bind. apply safe_retire. cbn [Conc.safe]. apply HQ. reflexivity.
+        -- apply Conc.safe_bind. apply safe_unlock_pos; [eexists; exact Hp|eexists; exact Hc|exact Hpc|reflexivity|].
+           cbn [Conc.safe]. apply HQ. reflexivity.
+Qed.
+
+(** ** one client operation *)
+Lemma safe_give_up t lv (Q : out lstate -> lview -> Prop) : lv_hole lv = None -> Qany Q -> safe t give_up lv Q.
+Proof. intros Hh HQ. unfold give_up. apply safe_emit. cbn [Conc.safe]. apply HQ. exact Hh. Qed.
+
+Lemma safe_finish t gs fr (k : list nat -> prog (out lstate)) lv (Q : out lstate -> lview -> Prop) :
+  (forall fr', safe t (k fr') lv Q) -> safe t (fr2 <- free_guards t gs fr ;; k fr2) lv Q.
+Proof. intros H. apply Conc.safe_bind. apply safe_free_guards. exact H. Qed.
+
+Lemma safe_run_op fuel sf ic t o ls lv (Q : out lstate -> lview -> Prop) :
+  lv_hole lv = None -> Qany Q -> safe t (run_op fuel sf ic t o ls) lv Q.
+Proof.
+  intros Hh HQ. unfold run_op.
+  set (code := nth 0 o 0). set (k := nth 1 o 0). set (x := nth 2 o 0).
+  destruct ls as [fr own]. destruct (alloc2 fr) as [[g0 g1] fr1].
+  destruct (Z.leb 1 code && Z.leb code 10); [|cbn [Conc.safe]; apply HQ; exact Hh].
+  apply safe_emit.
+  assert (Hret : forall (r : out lstate) es lv', lv_hole lv' = None -> safe t (Emit es (Ret r)) lv' Q).
+  { intros r es lv' E. apply safe_emit. cbn [Conc.safe]. apply HQ. exact E. }
+  destruct (Z.eqb code 1 || Z.eqb code 2).
+  { apply safe_alloc. intros n. cbn [vptr]. apply Conc.safe_bind.
+    eapply safe_insert_loop; [reflexivity|exact Hh|]. intros r lv' E. destruct r as [b|].
+    - apply safe_finish. intros fr2. apply Hret. exact E.
+    - apply safe_give_up; auto. }
+  destruct (Z.eqb code 3).
+  { apply safe_alloc. intros n. cbn [vptr]. apply Conc.safe_bind.
+    eapply safe_update_loop; [reflexivity|exact Hh|]. intros r lv' E. destruct r as [[a b]|].
+    - apply safe_finish. intros fr2. apply Hret. exact E.
+    - apply safe_give_up; auto. }
+  destruct (Z.eqb code 4 || Z.eqb code 5).
+  { apply Conc.safe_bind. apply safe_erase_loop; [exact Hh|]. intros r lv' E. destruct r as [b|].
+    - apply safe_finish. intros fr2. apply Hret. exact E.
+    - apply safe_give_up; auto. }
+  destruct (Z.eqb code 6).
+  { cbv zeta.
+    assert (Hbody : forall m lv0, lv_hole lv0 = None ->
+       safe t (r <- erase_loop fuel sf ic 6 m t g0 g1 k ;;
+               match r with
+               | None => give_up
+               | Some b => fr2 <- free_guards t [g0; g1] fr1 ;;
+                   Emit [ev_ret (zb b) (zb (negb (Nat.eqb (own_find k own) 0)))] (Ret (Some (fr2, if b then own_del k own else own)))
+               end) lv0 Q).
+    { intros m lv0 E0. apply Conc.safe_bind. apply safe_erase_loop; [exact E0|]. intros r lv' E. destruct r as [b|].
+      - apply safe_finish. intros fr2. apply Hret. exact E.
+      - apply safe_give_up; auto. }
+    destruct (Nat.eqb (own_find k own) 0).
+    - apply safe_alloc. intros n. cbn [vptr]. apply Hbody. exact Hh.
+    - apply Hbody. exact Hh. }
+  destruct (Z.eqb code 7).
+  { apply Conc.safe_bind. apply safe_erase_loop; [exact Hh|]. intros r lv' E. destruct r as [[|]|].
+    - apply safe_finish. intros fr2. apply Conc.safe_bind. apply safe_use_guarded.
+      apply safe_finish. intros fr3. apply Hret. exact E.
+    - apply safe_finish. intros fr2. apply Hret. exact E.
+    - apply safe_give_up; auto. }
+  (* get, contains, find with functor *)
+  apply Conc.safe_bind. unfold search_from_head. apply safe_search; [left; reflexivity|left; reflexivity|..].
+  - intros F' _. apply safe_give_up; auto.
+  - intros F' pp pc HF Hf. cbn beta iota.
+    destruct (Nat.eqb_spec (vptr pc) TAIL) as [ET|ET].
+    { apply safe_finish. intros fr2. apply Hret. exact Hh. }
+    assert (Hpk : pk F' (vptr pc)) by (apply (found_pk _ _ _ _ Hf)).
+    destruct (Z.eqb code 10).
+    + apply Conc.safe_bind. apply safe_lock_outer; [exact Hpk| |].
+      * intros _. cbn [negb].
+        apply safe_ld_held; [exists None; left; reflexivity|]. intros v _. cbn [with_held with_facts lv_facts lv_held lv_own lv_hole].
+        assert (Hu : forall (kk : prog (out lstate)) F2 H2, (forall H3, safe t kk (mkLV F2 H3 (lv_own lv) None) Q) ->
+                       safe t (_ <- unlock (vptr pc) ;; kk) (mkLV F2 ((vptr pc, Some (vptr v, vmark v)) :: H2) (lv_own lv) None) Q).
+        { intros kk F2 H2 Hkk. apply Conc.safe_bind. apply safe_unlock'; [eexists; left; reflexivity|reflexivity|]. apply Hkk. }
+        rewrite Hh.
+        destruct (negb (vmark v) && Z.eqb (vkey pc) k).
+        -- apply safe_emit. apply Hu. intros H3. apply safe_finish. intros fr2. apply Hret. reflexivity.
+        -- apply Hu. intros H3. apply safe_finish. intros fr2. apply Hret. reflexivity.
+      * cbn [negb]. apply safe_give_up; auto.
+    + apply safe_ld; [exact Hpk|]. intros v _. cbv zeta.
+      destruct (Z.eqb code 8 && (negb (vmark v) && Z.eqb (vkey pc) k)).
+      * apply safe_finish. intros fr2. apply Conc.safe_bind. apply safe_use_guarded.
+        apply safe_finish. intros fr3. apply Hret. exact Hh.
+      * apply safe_finish. intros fr2. apply Hret. exact Hh.
+Qed.
+
+Lemma safe_run_ops fuel sf ic t os : forall ls lv,
+  lv_hole lv = None -> safe t (run_ops fuel sf ic t os ls) lv (fun _ _ => True).
+Proof.
+  induction os as [|o os IH]; intros ls lv Hh; cbn [run_ops]; [exact I|].
+  apply Conc.safe_bind. apply safe_run_op; [exact Hh|].
+  intros r lv' E. destruct r as [ls'|]; [apply IH; exact E|exact I].
+Qed.
+
+Lemma safe_thread fuel sf ic t os lv :
+  lv_hole lv = None -> safe t (thread_prog fuel sf ic t os) lv (@Conc.QTrue lview).
+Proof.
+  intros Hh. unfold thread_prog. apply safe_neutral with (v := v0); [apply neutral_begin|].
+  eapply Conc.safe_weaken; [|apply safe_run_ops; exact Hh]. intros; exact I.
+Qed.
+
+(** ** the initial configuration *)
+Definition aux0 : aux := mkAux (fun _ => false) (fun _ => None) (fun _ => mkLV [] [] None None).
+
+Lemma IS_init : IS init aux0 [].
+Proof.
+  constructor; cbn; try discriminate; auto.
+  - split; cbn; auto.
+  - intros t t' n [o []].
+Qed.
+
+Lemma thread_progs_nth fuel sf ic : forall ths s t p,
+  nth_error (thread_progs fuel sf ic s ths) t = Some p ->
+  exists os, p = thread_prog fuel sf ic (s + t) os.
+Proof.
+  induction ths as [|os ths IH]; intros s t p H; cbn [thread_progs] in H.
+  - destruct t; discriminate.
+  - destruct t as [|t]; cbn [nth_error] in H.
+    + inversion H; subst. exists os. f_equal. lia.
+    + destruct (IH (S s) t p H) as [os' E]. exists os'. rewrite E. f_equal. lia.
+Qed.
+
+Lemma init_ok fuel sf ic ths : Conc.cfg_ok view Inv (init_cfg fuel sf ic ths).
+Proof.
+  exists aux0. split; [exists []; exact IS_init|].
+  intros t p Hp. cbn [init_cfg Conc.threads] in Hp.
+  destruct (thread_progs_nth _ _ _ _ _ _ _ Hp) as [os ->]. cbn [Nat.add].
+  apply safe_thread. reflexivity.
+Qed.
+
+(** ** no key is present twice: the physical traversal of unmarked nodes is a prefix of the logical chain *)
+Lemma esorted_keys_increasing g : forall L, (forall n, In n L -> n <> HEAD /\ n <> TAIL) ->
+  esorted (map (kf g) L) -> increasing (map (fun n => nkey (heap g n)) L).
+Proof.
+  induction L as [|x L IH]; intros Hnz Hs; cbn [map increasing]; [exact I|].
+  cbn [map esorted] in Hs. destruct Hs as [H1 H2]. split; [|apply IH; auto; intros n Hn; apply Hnz; right; exact Hn].
+  destruct L as [|y L]; cbn [map] in *; auto.
+  unfold kf in H1. destruct (Hnz x (or_introl eq_refl)) as [X1 X2]. destruct (Hnz y (or_intror (or_introl eq_refl))) as [Y1 Y2].
+  destruct (Nat.eqb_spec x HEAD); [contradiction|]. destruct (Nat.eqb_spec x TAIL); [contradiction|].
+  destruct (Nat.eqb_spec y HEAD); [contradiction|]. destruct (Nat.eqb_spec y TAIL); [contradiction|]. exact H1.
+Qed.
+
+Lemma increasing_prefix : forall (l1 l2 : list Z), increasing (l1 ++ l2) -> increasing l1.
+Proof.
+  induction l1 as [|x l1 IH]; intros l2 H; cbn [increasing]; [exact I|].
+  cbn [app increasing] in H. destruct H as [H1 H2]. split; [|eapply IH; eauto].
+  destruct l1; cbn [app] in *; auto.
+Qed.
+
+Lemma walk_prefix g a L : IS g a L -> forall fuel L0 n,
+  glinked (gnext g (a_succ a)) n L0 TAIL -> (forall x, In x L0 -> In x L) ->
+  exists L1 L2, L0 = L1 ++ L2 /\ lazy_walk g fuel (gnext g (a_succ a) n) = L1.
+Proof.
+  intros H. induction fuel as [|f IH]; intros L0 n Hl Hin; cbn [lazy_walk].
+  - exists [], L0. auto.
+  - destruct L0 as [|x L0]; cbn [glinked] in Hl.
+    + rewrite Hl, Nat.eqb_refl. exists [], []. auto.
+    + destruct Hl as [Hx Hl]. rewrite Hx.
+      assert (HxL : In x L) by (apply Hin; left; reflexivity).
+      assert (HxT : x <> TAIL).
+      { apply (s_pubL _ _ _ H) in HxL. apply (pub_range _ _ _ _ H) in HxL. unfold TAIL. lia. }
+      destruct (Nat.eqb_spec x TAIL); [contradiction|].
+      destruct (nmark (heap g x)) eqn:Em.
+      * exists [], (x :: L0). auto.
+      * destruct (IH L0 x Hl (fun y Hy => Hin y (or_intror Hy))) as (L1 & L2 & E & Hw).
+        rewrite (gnext_unmarked _ _ _ _ H Em) in Hw.
+        exists (x :: L1), L2. split; [rewrite E; reflexivity|]. rewrite Hw. reflexivity.
+Qed.
+
+Theorem lazy_sorted_nodup fuel sf ic ths c :
+  Conc.reach (init_cfg fuel sf ic ths) c -> increasing (lazy_keys (Conc.shared c)).
+Proof.
+  intros Hr. destruct (Conc.reach_Inv (init_ok fuel sf ic ths) Hr) as (a & L & HS).
+  set (g := Conc.shared c) in *. unfold lazy_keys.
+  destruct (s_chain _ _ _ HS) as [Hl Hs].
+  destruct (s_ends _ _ _ HS) as (Eh & _).
+  destruct (walk_prefix g a L HS (S (nalloc g)) L HEAD Hl (fun x Hx => Hx)) as (L1 & L2 & E & Hw).
+  rewrite (gnext_unmarked _ _ _ _ HS Eh) in Hw. rewrite Hw.
+  assert (Hnz : forall n, In n L -> n <> HEAD /\ n <> TAIL).
+  { intros n Hn. apply (s_pubL _ _ _ HS) in Hn. apply (pub_range _ _ _ _ HS) in Hn. unfold HEAD, TAIL. lia. }
+  assert (Hinc : increasing (map (fun n => nkey (heap g n)) L)).
+  { apply esorted_keys_increasing; auto. cbn [map] in Hs. apply esorted_tail in Hs. rewrite map_app in Hs.
+    clear -Hs. induction (map (kf g) L) as [|y l IH]; cbn [app esorted] in *; auto.
+    destruct Hs as [H1 H2]. split; auto. destruct l; cbn [app] in *; auto. }
+  rewrite E, map_app in Hinc. eapply increasing_prefix; eauto.
+Qed.
